@@ -7,9 +7,9 @@ export CARGO_NET_OFFLINE=true
 rundemo() { if [ -f demo/run.sh ]; then sh demo/run.sh; else (cd demo && cargo run --offline -q); fi; }
 with_rc=0; rundemo >/tmp/seed_with.log 2>&1 || with_rc=$?
 tests_with=$(cargo test --offline 2>&1 | grep "test result" | head -1)
-git stash push -q -- src
+git diff -- src > /tmp/keepseed_$$.diff; git apply -R /tmp/keepseed_$$.diff
 without_rc=0; rundemo >/tmp/seed_without.log 2>&1 || without_rc=$?
-git stash pop -q
+git apply /tmp/keepseed_$$.diff; rm -f /tmp/keepseed_$$.diff
 echo "$id: demo with change rc=$with_rc, without rc=$without_rc; tests with change: $tests_with"
 d=/verif/seeded/$id
 mkdir -p "$d/demo"
@@ -23,6 +23,6 @@ import json, sys
 d, sid, prop, caught, w, wo, tests = sys.argv[1:8]
 json.dump({"id": sid, "breaks_property": prop, "needs_to_manifest": open(d + "/notes.md").read()[:1500] if __import__("os").path.exists(d + "/notes.md") else "",
            "confirmed": {"demo_exit_with_change": int(w), "demo_exit_without_change": int(wo), "unit_tests_with_change": tests,
-                         "commands": ["cd <worktree>/demo && cargo run --offline", "git stash push -- src; cargo run --offline; git stash pop", "cargo test --offline"]},
+                         "commands": ["cd <worktree>/demo && cargo run --offline", "git diff -- src > p.diff; git apply -R p.diff; cargo run --offline; git apply p.diff", "cargo test --offline"]},
            "caught_by": caught}, open(d + "/meta.json", "w"), indent=1)
 PY
